@@ -23,7 +23,8 @@ from ..hub import Hub
 from . import hubprops
 from .. import scenarios
 
-hubprops.PLAN["C03"] = [{"fam": "Failures", "num_q": 40, "num_t": 500, "depth": 80}]
+hubprops.PLAN["C03"] = [{"fam": "Failures", "num_q": 40, "num_t": 500, "depth": 80},
+                        {"fam": "death-during-manager-msg", "scen": scenarios.death_during_manager_msg, "num_q": 0, "num_t": 0, "prof_q": 2, "prof_t": 6}]
 
 I16 = (-32768, -1, 0, 1, 32767)
 I32 = (-2**31, -1, 0, 1, 2**31 - 1)
